@@ -165,3 +165,11 @@ Proof.
       split; [rewrite Pc2; f_equal; lia|exact I2].
 Qed.
 End WalkK.
+
+(* for stubs of length 2 "strictly inside a stub" is Walk.second *)
+Lemma inside2_second sc p : inside 2 sc p = second (map fst sc) p.
+Proof.
+  unfold inside, second. induction (map fst sc) as [|i tl IH]; cbn [existsb]; [reflexivity|].
+  rewrite IH. f_equal.
+  destruct (Nat.ltb_spec i p), (Nat.ltb_spec p (i + 2)), (Nat.eqb_spec p (i + 1)); cbn; try reflexivity; lia.
+Qed.
